@@ -23,7 +23,7 @@ import (
 // the last step's output; results are surfaced in order, none dropped.
 //
 //gosym:harness
-//gosym:cover extra-found extra-missing multi-round results-surfaced
+//gosym:cover extra-found extra-missing multi-round results-surfaced selected-by-label several-matched
 func HarnessC04Steps() {
 	n := zz.Bound(2, 2)
 	nSteps := zz.Bound(2, 3)
@@ -33,6 +33,11 @@ func HarnessC04Steps() {
 	zz.Assume(foreign != "")
 	pre := zzSetupComposedN(s, n, 1, foreign, true)
 
+	// the first step selects its extra resources by name, or by a label (the
+	// label variant keeps the other step behaviours fixed: the dimensions are
+	// independent and their product is large)
+	byLabel := zz.Bool("step0.selectsByLabel")
+
 	// cluster content the selectors may match: "extra-a" exists or not
 	extraAExists := zz.Bool("cluster.extra-a")
 	if extraAExists {
@@ -40,15 +45,29 @@ func HarnessC04Steps() {
 		e.SetAPIVersion("example.org/v1")
 		e.SetKind("Extra")
 		e.SetName("extra-a")
+		e.SetLabels(map[string]string{"round": "extra-a"})
+		s.Put(e)
+	}
+	// a second object carrying the same label as extra-a (selection by labels
+	// may match several objects)
+	extraCExists := byLabel && zz.Bool("cluster.extra-c")
+	if extraCExists {
+		e := &kunstructured.Unstructured{}
+		e.SetAPIVersion("example.org/v1")
+		e.SetKind("Extra")
+		e.SetName("extra-c")
+		e.SetLabels(map[string]string{"round": "extra-a"})
 		s.Put(e)
 	}
 	extraBName := zz.Str("cluster.extra-b.name") // an object with a solver-chosen name
 	zz.Assume(extraBName != "")
 	zz.Assume(extraBName != "extra-a")
+	zz.Assume(extraBName != "extra-c")
 	eb := &kunstructured.Unstructured{}
 	eb.SetAPIVersion("example.org/v1")
 	eb.SetKind("Extra")
 	eb.SetName(extraBName)
+	eb.SetLabels(map[string]string{"round": extraBName})
 	s.Put(eb)
 
 	runner := &zzRunner{}
@@ -58,11 +77,15 @@ func HarnessC04Steps() {
 		for j := range st.desired {
 			// the last step's output is solver-chosen; earlier steps desire everything
 			st.desired[j] = true
-			if i == nSteps-1 {
+			if i == nSteps-1 && !byLabel {
 				st.desired[j] = zz.Bool(nm + ".desired" + string(rune('0'+j)))
 			}
 		}
-		switch zz.Choose(nm+".results", 3) {
+		results := 0
+		if !byLabel {
+			results = zz.Choose(nm+".results", 3)
+		}
+		switch results {
 		case 1:
 			st.warning = true
 		case 2:
@@ -73,9 +96,11 @@ func HarnessC04Steps() {
 			// another, then stable
 			st.reqNames = []string{zz.Str(nm + ".req0"), zz.Str(nm + ".req1"), "extra-a"}
 			// the requirement's own name may change from round to round too
-			if zz.Bool(nm + ".keysChange") {
+			if !byLabel && zz.Bool(nm+".keysChange") {
 				st.reqKeys = []string{"first", "second", "second"}
 			}
+			// the selector matches by name, or by the label "round"
+			st.reqByLabel = byLabel
 		}
 		runner.steps = append(runner.steps, st)
 	}
@@ -137,8 +162,28 @@ func HarnessC04Steps() {
 				if !ok {
 					continue
 				}
+				if sel.GetMatchLabels() != nil {
+					// by labels: exactly the objects that carry the label value
+					zz.Cover("selected-by-label")
+					wantLabel := sel.GetMatchLabels().GetLabels()["round"]
+					matching := 0
+					if wantLabel == "extra-a" && extraAExists {
+						matching++
+					}
+					if wantLabel == "extra-a" && extraCExists {
+						matching++
+					}
+					if wantLabel == extraBName {
+						matching++
+					}
+					zz.Assert("label-selection-supplies-exactly-the-matching-resources", call.extraCounts[x] == matching)
+					if matching == 2 {
+						zz.Cover("several-matched")
+					}
+					continue
+				}
 				wantName := sel.GetMatchName()
-				exists := (wantName == "extra-a" && extraAExists) || wantName == extraBName
+				exists := (wantName == "extra-a" && extraAExists) || wantName == extraBName || (wantName == "extra-c" && extraCExists)
 				if exists {
 					zz.Cover("extra-found")
 					zz.Assert("existing-extra-resource-supplied", call.extraCounts[x] == 1 && call.extraNames[x] == wantName)
@@ -177,6 +222,7 @@ func HarnessC04Steps() {
 	if wantEvents > 0 {
 		zz.Cover("results-surfaced")
 	}
+	_ = byLabel
 	k := 0
 	for i, st := range runner.steps {
 		for _, sev := range []bool{st.warning, st.normal} {
